@@ -70,7 +70,7 @@ func (w *c08world) handler(r *http.Request, rec *rig.OriginReq) ([]byte, bool) {
 	for _, kv := range s.Header {
 		v := kv[1]
 		if http.CanonicalHeaderKey(kv[0]) == "Connection" {
-			if s.Close {
+			if s.Close && !sawConn {
 				v += ", close"
 			}
 			sawConn = true
@@ -224,7 +224,13 @@ func c08gen(b core.Batch, i int, mode string, w *c08world) (c08case, rig.Req) {
 		c.ReqHeader = append(c.ReqHeader, [2]string{"Authorization", "Bearer secret-end-to-end"})
 	}
 	if pick(35) {
-		c.ReqHeader = append(c.ReqHeader, [2]string{"Connection", "X-Hop-Req, keep-alive"}, [2]string{"X-Hop-Req", "must-not-arrive"}, [2]string{"Keep-Alive", "timeout=5"})
+		if pick(50) {
+			c.ReqHeader = append(c.ReqHeader, [2]string{"Connection", "X-Hop-Req, keep-alive"}, [2]string{"X-Hop-Req", "must-not-arrive"}, [2]string{"Keep-Alive", "timeout=5"})
+		} else {
+			// the Connection field split over several field lines, mixed case tokens
+			c.ReqHeader = append(c.ReqHeader, [2]string{"Connection", "keep-alive"}, [2]string{"X-Hop-Req", "must-not-arrive"}, [2]string{"Connection", "x-hop-req"},
+				[2]string{"X-Hop-Req2", "must-not-arrive-either"}, [2]string{"connection", "X-HOP-REQ2"}, [2]string{"Keep-Alive", "timeout=5"})
+		}
 	}
 	if pick(25) {
 		c.ReqHeader = append(c.ReqHeader, [2]string{"Proxy-Authorization", "Basic cHJveHk6c2VjcmV0"})
@@ -273,7 +279,12 @@ func c08gen(b core.Batch, i int, mode string, w *c08world) (c08case, rig.Req) {
 		s.Header = append(s.Header, [2]string{"Warning", "199 - \"one\""}, [2]string{"Warning", "299 - \"two\""})
 	}
 	if pick(35) {
-		s.Header = append(s.Header, [2]string{"Connection", "X-Hop-Resp"}, [2]string{"X-Hop-Resp", "must-not-arrive"}, [2]string{"Keep-Alive", "timeout=9"})
+		if pick(50) {
+			s.Header = append(s.Header, [2]string{"Connection", "X-Hop-Resp"}, [2]string{"X-Hop-Resp", "must-not-arrive"}, [2]string{"Keep-Alive", "timeout=9"})
+		} else {
+			s.Header = append(s.Header, [2]string{"Connection", "keep-alive"}, [2]string{"X-Hop-Resp", "must-not-arrive"}, [2]string{"Connection", "x-hop-resp, X-Hop-Resp2"},
+				[2]string{"X-Hop-Resp2", "must-not-arrive-either"}, [2]string{"Keep-Alive", "timeout=9"})
+		}
 	}
 	if pick(15) {
 		s.Header = append(s.Header, [2]string{"Proxy-Authenticate", "Basic realm=x"})
@@ -342,6 +353,70 @@ func c08Run(b core.Batch, r *core.Recorder) {
 		if i < 2 {
 			r.Sample(c)
 		}
+	}
+	c08range416(b, r, mode)
+}
+
+// c08range416: the origin answers a Range request with 416 and the same request without Range with
+// 200 (storable or not); with retry_on_range_416 the proxy retries by itself. Whatever the client
+// gets, status, tagged headers and body must all belong to ONE origin response.
+func c08range416(b core.Batch, r *core.Recorder, mode rig.Mode) {
+	full := rig.Body(77, 1, 400)
+	o := rig.StartOrigin(func(w http.ResponseWriter, q *http.Request, rec *rig.OriginReq) {
+		if q.Header.Get("Range") != "" {
+			w.Header().Set("X-Origin-Answer", "416")
+			w.Header().Set("Content-Range", "bytes */400")
+			w.Header().Set("Content-Type", "text/plain")
+			w.WriteHeader(416)
+			w.Write([]byte("unsatisfiable"))
+			return
+		}
+		w.Header().Set("X-Origin-Answer", "200")
+		cc := "no-store"
+		if strings.Contains(q.URL.Path, "storable") {
+			cc = "max-age=300"
+		}
+		rig.ServeBody(w, 77, 1, 400, map[string]string{"Cache-Control": cc})
+	})
+	defer o.Close()
+	for _, retry := range []bool{true, false} {
+		p := rig.StartProxy(rig.ProxyOpts{Backend: b.Str("backend", "memory"), Retry416: retry})
+		for i, kind := range []string{"nostore", "storable", "nostore", "storable"} {
+			id := fmt.Sprintf("r416-%v-%s-%d", retry, kind, i)
+			if !r.Case(id, kind) {
+				continue
+			}
+			rng := "bytes=900-"
+			if i >= 2 {
+				rng = "bytes=5-9" // satisfiable for the proxy once it holds the full body
+			}
+			resp := rig.Do(p, mode, o.Addr, rig.Req{Target: fmt.Sprintf("/%s/%s-%d", id, kind, i), Header: [][2]string{{"Range", rng}}})
+			r.Eval(1)
+			r.Count("range416_cases", 1)
+			r.Nontrivial("range416", retry, kind, rng, string(mode))
+			cs := map[string]any{"id": id, "retry_on_range_416": retry, "origin_second_answer": kind, "range": rng}
+			wit := map[string]any{"status": resp.Status, "header": resp.Header, "body_len": len(resp.Body), "err": fmt.Sprint(resp.Err)}
+			if resp.Err != nil {
+				r.Violation("C08", "C08:resp:not-delivered:range-416", fmt.Sprintf("no well-formed response: %v", resp.Err), cs, wit)
+				continue
+			}
+			tag := resp.Get("X-Origin-Answer")
+			okPair := false
+			switch resp.Status {
+			case 416:
+				// relayed from the origin, or built by the proxy from the stored full body
+				okPair = (tag == "416" && string(resp.Body) == "unsatisfiable") || (tag == "" && strings.HasPrefix(resp.Get("Content-Range"), "bytes */400"))
+			case 200:
+				okPair = tag == "200" && string(resp.Body) == string(full)
+			case 206:
+				okPair = tag == "200" && rng == "bytes=5-9" && string(resp.Body) == string(full[5:10])
+			}
+			if !okPair {
+				r.Violation("C08", fmt.Sprintf("C08:resp:status-body-of-different-responses:%d-with-%s", resp.Status, tag),
+					fmt.Sprintf("client received status %d with headers of the origin's %s answer and a %d-byte body: not one origin response", resp.Status, tag, len(resp.Body)), cs, wit)
+			}
+		}
+		p.Close()
 	}
 }
 
